@@ -265,13 +265,14 @@ Lemma no_late_read_v2 :
   end = true.
 Proof. vm_compute. reflexivity. Qed.
 
-(* ---------- a failing store write of UpdateStatus(StatusRunning) (c_stfail) ---------- *)
+(* ---------- a failing store write of UpdateStatus(StatusRunning) (c_stfail) ----------
+   The code as it stood before 742a56e / eff71a0 ([cfg_v?_io_shipped]); the repaired code follows below. *)
 (* v1: the write fails at the user's Start: the publication is rolled back and runPipeline returns before the
    cleanup goroutine is registered. The node goroutines run on: status Running, no map entry, nothing can
    stop the run *)
 Definition w_stfail_start_v1 : list act := [ACall KStart 0] ++ user 5 ++ [AUser 1; AUser 0; AOpen 0].
 Lemma stfail_start_leaks_run_v1 :
-  match trace (cfg_v1_io true) init (w_stfail_start_v1 ++ [ACall KStop 1] ++ user 2) with
+  match trace (cfg_v1_io_shipped true) init (w_stfail_start_v1 ++ [ACall KStop 1] ++ user 2) with
   | Some (ls, s) => quiescent s && status_eqb (s_status s) Running && onat_eqb (s_map s) None && is_live (s_runs s 0)
                     && negb (agrees s)
                     && has_label (fun l => match l with LRet 0 RetErr => true | _ => false end) ls
@@ -285,7 +286,7 @@ Proof. vm_compute. reflexivity. Qed.
 Definition w_stfail_restart_v1 : list act :=
   start_v1 0 ++ [AOpen 0] ++ fail_v1 0 CaTransient ++ clean 0 8 ++ [AClean 0 1] ++ clean 0 4 ++ [AOpen 1].
 Lemma stfail_restart_leaks_run_v1 :
-  match final (cfg_v1_io true) w_stfail_restart_v1 with
+  match final (cfg_v1_io_shipped true) w_stfail_restart_v1 with
   | Some s => quiescent s && status_eqb (s_status s) Degraded && is_live (s_runs s 1) && negb (agrees s)
   | None => false
   end = true.
@@ -294,7 +295,7 @@ Proof. vm_compute. reflexivity. Qed.
 Definition w_stfail_restart_v2 : list act :=
   start_v2 0 ++ fail_v1 0 CaTransient ++ clean 0 11 ++ [AClean 0 1] ++ clean 0 4.
 Lemma stfail_restart_leaks_run_v2 :
-  match final (cfg_v2_io true) w_stfail_restart_v2 with
+  match final (cfg_v2_io_shipped true) w_stfail_restart_v2 with
   | Some s => quiescent s && status_eqb (s_status s) Degraded && is_live (s_runs s 1) && negb (agrees s)
               && negb (guards_free s)
   | None => false
@@ -306,10 +307,76 @@ Proof. vm_compute. reflexivity. Qed.
 Definition w_stfail_start_v2 : list act :=
   [ACall KStart 0] ++ user 8 ++ [AUser 1; AUser 0; ACall KStop 1] ++ user 4 ++ [AEnd 0] ++ clean 0 4.
 Lemma stfail_start_stoppable_v2 :
-  match trace (cfg_v2_io true) init w_stfail_start_v2 with
+  match trace (cfg_v2_io_shipped true) init w_stfail_start_v2 with
   | Some (ls, s) => quiescent s && agrees s && guards_free s && status_eqb (s_status s) UserStopped
                     && has_label (fun l => match l with LRet 0 RetErr => true | _ => false end) ls
                     && has_label (fun l => match l with LRet 1 RetNil => true | _ => false end) ls
+  | None => false
+  end = true.
+Proof. vm_compute. reflexivity. Qed.
+
+(* ---------- the same failures on the code as repaired (742a56e / eff71a0 + the wait in runPipeline) ----------
+   The run whose Running write failed is Killed with a fatal error and finalized by its own cleanup goroutine, and
+   Start does not return before that: everything ends quiescent, the status (Degraded) agrees with the runs, the
+   guards are free, Start returned the error AFTER the closing status; v1 does not call the failure handlers for
+   it, v2 does. *)
+Definition w_stfail_start_repaired_v1 : list act :=
+  [ACall KStart 0] ++ user 5 ++ [AUser 1; AOpen 0; ATd 0; AEnd 0] ++ clean 0 4 ++ user 2.
+Definition w_stfail_start_repaired_v2 : list act :=
+  [ACall KStart 0] ++ user 8 ++ [AUser 1; ATd 0; AEnd 0] ++ clean 0 4 ++ user 2.
+Definition w_stfail_restart_repaired_v1 : list act :=
+  start_v1 0 ++ [AOpen 0] ++ fail_v1 0 CaTransient ++ clean 0 8 ++ [AClean 0 1; AOpen 1; ATd 1; AEnd 1] ++ clean 1 4 ++ clean 0 5.
+Definition w_stfail_restart_repaired_v2 : list act :=
+  start_v2 0 ++ fail_v1 0 CaTransient ++ clean 0 11 ++ [AClean 0 1; ATd 1; AEnd 1] ++ clean 1 4 ++ clean 0 5.
+
+(* the closing status of the failed run is in the trace before the return of the Start that failed *)
+Fixpoint closing_before_ret (ls : list label) : bool :=
+  match ls with
+  | [] => false
+  | LStatus Degraded :: _ => true
+  | LRet 0 _ :: _ => false
+  | _ :: t => closing_before_ret t
+  end.
+
+Lemma stfail_start_repaired_v1 :
+  match trace (cfg_v1_io true) init w_stfail_start_repaired_v1 with
+  | Some (ls, s) => quiescent s && agrees s && guards_free s && status_eqb (s_status s) Degraded
+                    && onat_eqb (s_map s) None && closing_before_ret ls
+                    && has_label (fun l => match l with LRet 0 RetErr => true | _ => false end) ls
+                    && negb (has_label (fun l => match l with LNotify _ => true | _ => false end) ls)
+  | None => false
+  end = true.
+Proof. vm_compute. reflexivity. Qed.
+
+Lemma stfail_start_repaired_v2 :
+  match trace (cfg_v2_io true) init w_stfail_start_repaired_v2 with
+  | Some (ls, s) => quiescent s && agrees s && guards_free s && status_eqb (s_status s) Degraded
+                    && onat_eqb (s_map s) None && closing_before_ret ls
+                    && has_label (fun l => match l with LRet 0 RetErr => true | _ => false end) ls
+                    && has_label (fun l => match l with LNotify (ResCause CaFatal) => true | _ => false end) ls
+  | None => false
+  end = true.
+Proof. vm_compute. reflexivity. Qed.
+
+(* the Start that failed cannot return while the run it Killed is still live *)
+Lemma stfail_start_blocks_until_finalized :
+  (trace (cfg_v1_io true) init ([ACall KStart 0] ++ user 5 ++ [AUser 1; AUser 0]) = None)
+  /\ (trace (cfg_v2_io true) init ([ACall KStart 0] ++ user 8 ++ [AUser 1; AUser 0]) = None)
+  /\ (trace (cfg_v1_io true) init (start_v1 0 ++ [AOpen 0] ++ fail_v1 0 CaTransient ++ clean 0 8 ++ [AClean 0 1; AClean 0 0]) = None).
+Proof. vm_compute. repeat split. Qed.
+
+Lemma stfail_restart_repaired_v1 :
+  match final (cfg_v1_io true) w_stfail_restart_repaired_v1 with
+  | Some s => quiescent s && agrees s && guards_free s && status_eqb (s_status s) Degraded
+              && match live_runs s with [] => true | _ => false end
+  | None => false
+  end = true.
+Proof. vm_compute. reflexivity. Qed.
+
+Lemma stfail_restart_repaired_v2 :
+  match final (cfg_v2_io true) w_stfail_restart_repaired_v2 with
+  | Some s => quiescent s && agrees s && guards_free s && status_eqb (s_status s) Degraded
+              && match live_runs s with [] => true | _ => false end
   | None => false
   end = true.
 Proof. vm_compute. reflexivity. Qed.
